@@ -659,6 +659,31 @@ def k_choice_extra_suffix(f, rng):
     return Exp(r"On the 'choices' sheet, the '%s' value is invalid" % re.escape(base), "none")
 
 
+@kind("reserved-column-name", 3)
+def k_reserved_column(f, rng):
+    """Column names taken by the converter's own element classes, and grouped columns written without their attribute (bind instead of bind::x)."""
+    where = pick(rng, ["survey", "survey", "choices"])
+    if where == "choices":
+        ln = pick(rng, sorted(f.choices))
+        if not ln:
+            return None
+        col = pick(rng, ["fields", "self"])
+        pick(rng, f.choices[ln])[col] = "v1"
+        return Exp(r"On the 'choices' sheet, the '%s' value is invalid" % col, "none")
+    col = pick(rng, ["action", "fields", "self", "question_type_dictionary", "bind", "control", "instance"])
+    rows = [r for r, _ in f.walk() if r.kind in ("q", "group", "repeat") and r.type != "audit"]
+    if not rows:
+        return None
+    r = pick(rng, rows)
+    r.cells[col] = pick(rng, ["x", "yes", "relevant", "{}"])
+    if col in ("bind", "control", "instance"):
+        e = Exp(r"the '%s' column needs the name of an attribute" % col, "none")
+    else:
+        e = Exp(r"The '%s' column is not supported: the name is reserved" % col, "row", row=r)
+    e.sub = "survey:" + ("grouped" if col in ("bind", "control", "instance") else "class-field")
+    return e
+
+
 @kind("choice-duplicate-name", 3)
 def k_choice_dup(f, rng):
     ln = pick(rng, sorted(f.choices))
